@@ -52,8 +52,14 @@ def gen_history(rng, maxlen):
             r = [rng.choice(SPECIES) for _ in range(rng.randint(0, 3))]
             p = [rng.choice(SPECIES) for _ in range(rng.randint(0, 2))]
             k = {"name": rng.choice(PARAMS)} if rng.chance(1, 2) else {"num": rng.choice(VALS)}
-            ops.append(["createMassAction", r, p, k])
-            learn(r + p)
+            if rng.chance(1, 3):
+                # a reaction with a delayed part (fixed delay given by a named parameter)
+                dp = [rng.choice(SPECIES) for _ in range(rng.randint(1, 2))]
+                ops.append(["createDelayed", r, p, k, dp, rng.choice(PARAMS)])
+                learn(r + p + dp)
+            else:
+                ops.append(["createMassAction", r, p, k])
+                learn(r + p)
         else:
             ops.append(["initialize"])
     # how a session often ends: the model is complete and has been used, then one more edit is made before the next run
@@ -66,6 +72,9 @@ def gen_history(rng, maxlen):
         ops += [["initialize"], ["setSpecies", [[rng.choice(SPECIES), float(rng.randint(0, 9))]]]]
     elif tail == 3:
         ops += [["addSpecies", rng.choice(["S", "R"])], ["initialize"], rule_op()]
+    elif tail == 4:
+        # the model has been used; then a delayed reaction is added
+        ops += [["initialize"], ["createDelayed", [rng.choice(SPECIES)], [], {"name": rng.choice(PARAMS)}, [rng.choice(SPECIES)], rng.choice(PARAMS)]]
     return ops
 
 
@@ -84,6 +93,10 @@ def apply_real(M, op):
         elif t == "createMassAction":
             k = op[3]["name"] if "name" in op[3] else op[3]["num"]
             M.create_reaction(list(op[1]), list(op[2]), "massaction", {"k": k})
+        elif t == "createDelayed":
+            k = op[3]["name"] if "name" in op[3] else op[3]["num"]
+            M.create_reaction(list(op[1]), list(op[2]), "massaction", {"k": k}, delay_type="fixed", delay_reactants=[],
+                              delay_products=list(op[4]), delay_param_dict={"delay": op[5]})
         elif t == "createRule":
             M.create_rule("additive", {"equation": "%s = %s" % (op[1], " + ".join(op[2]))})
         elif t == "initialize":
@@ -118,6 +131,9 @@ def to_job(ops):
         elif op[0] == "createMassAction":
             k = op[3] if "name" in op[3] else {"num": f2b(op[3]["num"])}
             jo.append(["createMassAction", op[1], op[2], k])
+        elif op[0] == "createDelayed":
+            k = op[3] if "name" in op[3] else {"num": f2b(op[3]["num"])}
+            jo.append(["createDelayed", op[1], op[2], k, op[4], op[5]])
         else:
             jo.append(list(op))
     return {"op": "modelops", "num": "float", "ops": jo}
@@ -163,7 +179,7 @@ def history_case(ctx, ops):
     if any(v is None for v in final["paramVals"]) or not final["species"]:
         ctx.count("history_without_complete_definition")
         return
-    rx = [op for op, o in zip(ops, real_out) if op[0] == "createMassAction" and o["result"] == "ok"]
+    rx = [op for op, o in zip(ops, real_out) if op[0] in ("createMassAction", "createDelayed") and o["result"] == "ok"]
     if not rx or set(final["params"]) & set(final["species"]):
         return      # (a parameter created before a species of the same name: cannot be declared at once)
     pvals = dict(zip(final["params"], final["paramVals"]))
@@ -173,11 +189,14 @@ def history_case(ctx, ops):
     di = 0
     fresh_rx = []
     for op in rx:
+        dl = ("fixed", [], list(op[4]), {"delay": op[5]}) if op[0] == "createDelayed" else ()
         if "name" in op[3]:
-            fresh_rx.append((list(op[1]), list(op[2]), "massaction", {"k": op[3]["name"]}))
+            fresh_rx.append((list(op[1]), list(op[2]), "massaction", {"k": op[3]["name"]}) + dl)
         else:
-            fresh_rx.append((list(op[1]), list(op[2]), "massaction", {"k": pvals[dummies[di]]}))
+            fresh_rx.append((list(op[1]), list(op[2]), "massaction", {"k": pvals[dummies[di]]}) + dl)
             di += 1
+    if any(op[0] == "createDelayed" for op in rx):
+        ctx.count("history_with_delayed_reaction")
     rules = [op for op, o in zip(ops, real_out) if op[0] == "createRule" and o["result"] == "ok"]
     fresh = Model(species=list(reversed(final["species"])), reactions=fresh_rx,
                   parameters=[(p, v) for p, v in pvals.items() if not p.startswith("DummyVar_")],
